@@ -427,6 +427,9 @@ class Element(TypedContent):
     def merge(self, other):
         SchemaObject.merge(self, other)
         self.rawchildren = other.rawchildren
+        # nillable defaults to False, not None, so SchemaObject.merge() never
+        # carries the referenced element's value over.
+        self.nillable = self.nillable or other.nillable
 
     def description(self):
         return "name", "ref", "type"
